@@ -3,7 +3,7 @@
 From Coq Require Import ZArith List Bool.
 From Coq Require Import PrimFloat.
 From PV Require Import Model.Base Model.Sched Model.Seq Model.Eom.
-From PV Require Gen.Pure Model.Chan Proofs.PureEq.
+From PV Require Gen.Pure Gen.PureState Model.Chan Proofs.PureEq Proofs.PureStateEq.
 From PV Require Import Proofs.SchedInv Proofs.EomSpec.
 Import ListNotations.
 Open Scope Z_scope.
@@ -91,3 +91,20 @@ Theorem C15_source_eom_rise_time :
     f_ne b zero = true -> Gen.Pure.gen_eom_rise_time b = Chan.rise_time (Some b).
 Proof. exact PureEq.eom_rise_time_eq. Qed.
 Print Assumptions C15_source_eom_rise_time.
+
+(** ... and entering / leaving EOM mode at the scheduler level: the model's
+    [enable_eom] and [disable_eom] ARE the monadic functions regenerated from the
+    current source of _Schedule.enable_eom / _Schedule.disable_eom, on every state
+    (no caller passes _skip_buffer to enable_eom: it is the constant False). *)
+Theorem C15_source_enable_eom :
+  forall (e : env) (n : Z) (amp_on det_on det_off : float) (skip_wait : bool) (s : sched),
+    Gen.PureState.gen_enable_eom e n amp_on det_on det_off skip_wait s =
+    enable_eom e n amp_on det_on det_off skip_wait s.
+Proof. exact PureStateEq.enable_eom_eq. Qed.
+Print Assumptions C15_source_enable_eom.
+
+Theorem C15_source_disable_eom :
+  forall (e : env) (n : Z) (skip : bool) (s : sched),
+    Gen.PureState.gen_disable_eom e n skip s = disable_eom e n skip s.
+Proof. exact PureStateEq.disable_eom_eq. Qed.
+Print Assumptions C15_source_disable_eom.
